@@ -335,8 +335,16 @@ func RunKvs(cfg SmallCfg, t *Trace, seg int) int {
 	r := rand.New(rand.NewSource(int64(cfg.Seed)))
 	// key universe: the boundaries of the valid range and a few in the middle
 	keys := []uint64{513, 514, 515, 600, 601, sz - 2, sz - 1}
+	if cfg.Avoid["__bigput"] {
+		// a large key universe so that one put can exceed the journal's capacity (511 blocks)
+		keys = nil
+		for k := uint64(513); k < 513+700; k++ {
+			keys = append(keys, k)
+		}
+		keys = append(keys, sz-1)
+	}
 	t.Emit(map[string]interface{}{"ev": "reset", "seg": seg, "driver": "kvs", "seed": cfg.Seed, "disksz": int(sz), "unstable": false,
-		"root": "", "keephist": cfg.Crash, "keys": keys})
+		"root": "", "keephist": cfg.Crash, "keys": keys, "lo": 513, "hi": int(sz)})
 	seg++
 	tag := 0
 	var all []*KvEv
@@ -345,9 +353,20 @@ func RunKvs(cfg SmallCfg, t *Trace, seg int) int {
 		if r.Intn(100) < 60 {
 			e.Op = "put"
 			np := []int{1, 1, 2, 3, 5, 7, 12}[r.Intn(7)]
+			if cfg.Avoid["__bigput"] {
+				np = []int{1, 3, 500, 510, 511, 512, 513, 600}[r.Intn(8)]
+			}
 			var pairs []kvs.KVPair
+			perm := r.Perm(len(keys))
+			bad := r.Intn(12) == 0 // include a key just outside the valid range [513, sz)
 			for j := 0; j < np; j++ {
 				key := keys[r.Intn(len(keys))]
+				if cfg.Avoid["__bigput"] && j < len(perm) {
+					key = keys[perm[j]] // distinct keys
+				}
+				if bad && j == np-1 {
+					key = []uint64{512, sz, sz + 1, 0}[r.Intn(4)]
+				}
 				tag++
 				v := 1 + tag%250
 				e.Pairs = append(e.Pairs, [2]int{int(key), v})
@@ -370,6 +389,9 @@ func RunKvs(cfg SmallCfg, t *Trace, seg int) int {
 		} else {
 			e.Op = "get"
 			key := keys[r.Intn(len(keys))]
+			if r.Intn(15) == 0 {
+				key = []uint64{512, sz, sz + 1, 0}[r.Intn(4)]
+			}
 			e.Key = int(key)
 			if cfg.Crash {
 				d.Mark("inv", n)
@@ -384,15 +406,13 @@ func RunKvs(cfg SmallCfg, t *Trace, seg int) int {
 				e.OK = ok
 				e.Val = valOf(p.Val)
 			}()
+			e.Pairs = [][2]int{}
 			if cfg.Crash {
 				d.Mark("ret", n)
 			}
 		}
 		all = append(all, e)
 		t.Emit(e)
-		if e.St == "PANIC" {
-			return seg
-		}
 		if !cfg.Crash && r.Intn(40) == 0 {
 			k.Delete() // shuts the log down
 			k = kvs.MkKVS(d, sz)
